@@ -199,6 +199,12 @@ def run(prog: Program, rep, tier: str) -> None:
     rep.explanation = EXPLANATION
     from . import c12
     c12.path_shape_rule(prog, rep)
+    unbound_locals(prog, rep)
+    # restoring a solution applies the inverse stages in reverse order (un-scale what was scaled last ...): in the wrong order the
+    # unscaling is applied to vectors that still carry the slack block and numpy raises a broadcasting ValueError at the very end
+    from . import c04
+    from .c01 import _SubReport
+    c04.pipeline(prog, _SubReport(rep, keep=("pipeline-order", "restore-wiring")))
     funcs = [f for f in prog.iter_functions() if prog.in_scope(f) and "FixedActiveSetNewtonMethod" not in f.qualname]
     # ---- (1) certain crashes ---------------------------------------------------------------------------
     n_calls = sum(1 for f in funcs for n in own_nodes(f.node) if isinstance(n, ast.Call))
@@ -416,3 +422,142 @@ def domain_guards(prog: Program, rep) -> None:
                 rep.check(ok, "log-controller-domain", fi.qualname, short(si.stmt),
                           f"the value handed to the log-scale PI controller (which asserts val > 0) is a quotient of norms whose numerator is dominated by a non-zero fact ({why})", fi.loc(node))
     rep.pin("LogController.update call sites", n, 2)
+
+
+# ------------------------------------------------------------------------------------------------------------------------
+def _positive_const_attr(prog: Program, fi: FuncInfo, e: ast.AST) -> bool:
+    """e is `self.<a>` whose every store in the class hierarchy is a constructor parameter with a positive literal default that no
+    in-scope construction site overrides - or a positive literal."""
+    if isinstance(e, ast.Constant) and isinstance(e.value, int) and e.value > 0:
+        return True
+    if not (is_self_attr(e) and fi.cls is not None):
+        return False
+    vals = prog.attr_values(fi.cls, e.attr)
+    if not vals:
+        return False
+    for m, v in vals:
+        if isinstance(v, ast.Constant) and isinstance(v.value, int) and v.value > 0:
+            continue
+        if isinstance(v, ast.Name) and m.name == "__init__" and v.id in m.params:
+            a = m.node.args
+            pos = a.posonlyargs + a.args
+            dmap = {x.arg: d for x, d in zip(pos[len(pos) - len(a.defaults):], a.defaults)}
+            d = dmap.get(v.id)
+            if not (isinstance(d, ast.Constant) and isinstance(d.value, int) and d.value > 0):
+                return False
+            # no construction site passes the parameter
+            idx = [p for p in m.params if p != "self"].index(v.id)
+            cls_names = {c.name for c in prog.all_subclasses(m.cls, include_self=True)}
+            for f in prog.iter_functions():
+                for c in own_nodes(f.node):
+                    if isinstance(c, ast.Call) and (dotted(c.func) or "").split(".")[-1] in cls_names:
+                        if len(c.args) > idx or any(k.arg == v.id or k.arg is None for k in c.keywords):
+                            return False
+            continue
+        return False
+    return True
+
+
+def _guard_idiom(fn: ast.AST, name: str, use_stmt: ast.stmt, use_node: Optional[ast.AST] = None) -> Optional[str]:
+    """two correlated-guard idioms under which a name assigned in a conditional block is certainly bound at a later guarded use:
+      A  `if c: g = <not None>; name = ..  else: g = None`  ...  `if g is not None: use(name)`
+      B  `if flag: name = ..; flag = <narrowed>`            ...  `if flag: use(name)`     (flag not assigned in between)
+    returns a description, or None."""
+    parents = {}
+    for n in ast.walk(fn):
+        for c in ast.iter_child_nodes(n):
+            parents[id(c)] = n
+
+    def enclosing_ifs(st):
+        out = []
+        cur = st
+        while id(cur) in parents:
+            p = parents[id(cur)]
+            if isinstance(p, ast.If) and any(cur is b for b in p.body):
+                out.append(p)
+            cur = p
+            if cur is fn:
+                break
+        return out
+
+    def assigns(nm):
+        return [n for n in ast.walk(fn) if isinstance(n, (ast.Assign, ast.AnnAssign, ast.AugAssign)) and
+                any(isinstance(t, ast.Name) and t.id == nm for tt in (n.targets if isinstance(n, ast.Assign) else [n.target]) for t in ast.walk(tt) if isinstance(t, ast.Name) and isinstance(t.ctx, ast.Store))]
+
+    def body_list_of(st):
+        p = parents.get(id(st))
+        for fld in ("body", "orelse", "finalbody"):
+            b = getattr(p, fld, None)
+            if isinstance(b, list) and any(x is st for x in b):
+                return b
+        return None
+    defs = assigns(name)
+    guards = list(enclosing_ifs(use_stmt))
+    # guards inside the expression: `<use> if g is not None else ..`, `g is not None and <use>`
+    cur = use_node
+    while cur is not None and id(cur) in parents and cur is not use_stmt:
+        p = parents[id(cur)]
+        if isinstance(p, ast.IfExp) and cur is p.body:
+            guards.append(p)
+        if isinstance(p, ast.BoolOp) and isinstance(p.op, ast.And) and cur is not p.values[0]:
+            for v in p.values[:p.values.index(cur)]:
+                guards.append(ast.IfExp(test=v, body=cur, orelse=cur))
+        cur = p
+    for guard in guards:
+        t = guard.test
+        # idiom A
+        if isinstance(t, ast.Compare) and len(t.ops) == 1 and isinstance(t.ops[0], ast.IsNot) and isinstance(t.left, ast.Name) \
+                and isinstance(t.comparators[0], ast.Constant) and t.comparators[0].value is None:
+            g = t.left.id
+            gdefs = assigns(g)
+            ok = bool(gdefs)
+            for d in gdefs:
+                v = d.value
+                if isinstance(v, ast.Constant) and v.value is None:
+                    continue
+                bl = body_list_of(d)
+                if bl is None or not any(x in defs for x in bl):
+                    ok = False
+            if ok:
+                return f"`{name}` is assigned in every block that gives `{g}` a non-None value, and the use is guarded by `{g} is not None`"
+        # idiom B
+        if isinstance(t, ast.Name):
+            flag = t.id
+            for d in defs:
+                for g2 in enclosing_ifs(d):
+                    if isinstance(guard, ast.If) and isinstance(g2.test, ast.Name) and g2.test.id == flag and g2 is not guard and g2.lineno < guard.lineno and body_list_of(g2) is body_list_of(guard):
+                        between = [a for a in assigns(flag) if g2.end_lineno < a.lineno < guard.lineno]
+                        if not between:
+                            return f"`{name}` is assigned under `if {flag}:`; `{flag}` is only narrowed inside that block before the guarded use"
+    return None
+
+
+def unbound_locals(prog: Program, rep) -> None:
+    """UnboundLocalError is an internal crash: no local may be read on a path on which it was never assigned.  Definite-assignment
+    analysis over every in-scope function.  A name that is unbound only if some loop executes zero times is listed as undecided
+    (emptiness of an iterable is data); a name unbound along an ordinary path (a `break` / branch before its assignment) is a
+    violation unless one of two correlated-guard idioms proves the path infeasible."""
+    from ..defassign import possibly_unbound
+    n = 0
+    for fi in prog.iter_functions():
+        if not prog.in_scope(fi) or not isinstance(fi.node, (ast.FunctionDef, ast.AsyncFunctionDef)):
+            continue
+        n += 1
+
+        def once(loop, fi=fi):
+            it = getattr(loop, "iter", None)
+            return isinstance(it, ast.Call) and dotted(it.func) == "range" and len(it.args) == 1 and _positive_const_attr(prog, fi, it.args[0])
+        reps = possibly_unbound(fi.node, once)
+        if not reps:
+            continue
+        hard = {(r.name, id(r.stmt)) for r in possibly_unbound(fi.node, once, optimistic_loops=True)}
+        for r in reps:
+            if (r.name, id(r.stmt)) not in hard:
+                rep.note(f"undecided: {fi.loc(r.node)} `{r.name}` in {fi.short} is unbound if a loop before it executes zero times (emptiness of the iterable is not decided)")
+                continue
+            why = _guard_idiom(fi.node, r.name, r.stmt, r.node)
+            rep.check(why is not None, "no-unbound-local", fi.qualname, short(r.stmt),
+                      (f"`{r.name}` is bound whenever it is read ({why})" if why else
+                       f"`{r.name}` is bound whenever it is read (there is a path to this statement - a break, an early branch or an untaken `if` before its only assignments - on which it was never assigned: UnboundLocalError)"),
+                      fi.loc(r.node))
+    rep.pin("functions examined for unbound locals", n, 400)
